@@ -1,20 +1,23 @@
-"""Symbolic scalars for engine ST: sparse polynomials with rational coefficients.
+"""Symbolic scalars for engine ST: sparse (Laurent) polynomials with rational coefficients.
 
-A ``Poly`` is ``{monomial: coefficient}`` with ``monomial`` a sorted tuple of symbol ids
-(repetition = power) and ``coefficient`` an ``int``/``Fraction``.  Complex numbers are
-handled *formally*: symbol 0 is the imaginary unit ``I`` with the rewrite ``I*I -> -1`` and a
-complex unknown is a conj-pair of symbols ``(z, zbar)`` swapped by ``conjugate``.  Two
-polynomials in ``(z, zbar)`` agree on all of C^n iff they agree as formal polynomials, so
-identity queries over complex tensors are queries over independent real indeterminates.
+A ``Poly`` is ``{monomial: coefficient}``; a monomial is a tuple of ``(symbol id, exponent)``
+pairs sorted by id, a coefficient an ``int``/``Fraction``.  Complex numbers are handled
+*formally*: symbol 0 is the imaginary unit ``I`` (``I**2 -> -1``) and a complex unknown is a
+conj-pair of symbols ``(z, zbar)`` swapped by ``conjugate``.  Two polynomials in ``(z, zbar)``
+agree on all of C^n iff they agree as formal polynomials, so identity queries over complex
+tensors are queries over independent indeterminates.
 
-Other symbol kinds: ``unit`` pairs ``(u, ubar)`` with ``u*ubar -> 1`` (phases, positive scale
-factors and their inverses), ``alg`` symbols with ``v**n -> const`` (sqrt(2), sqrt(3)), and
-``def`` symbols introduced by division / sqrt with their defining relation stored as a
-hypothesis (see ``HYP``), used by the certificate procedure in ``decide.py``.
+Symbol kinds
+  real / cplx / cplxbar : free unknowns, positive integer exponents only;
+  pos   : strictly positive real, *invertible*: any rational exponent (10**(e/3) is g_e**(1/3));
+  unit  : complex number of modulus one, invertible, conj(u**k) = u**-k  (exp(i a) phases);
+  alg   : sqrt(n), with the rewrite v**2 -> n;
+  def   : introduced by division / sqrt / log10 with its defining relation kept in ``HYP`` and
+          used by the certificate procedure (decide.q_cert).
 
-Objects of this class live inside ``numpy`` object arrays and are driven by the *real* quimb
-code; all numpy elementwise machinery reaches them through the Python operators and the
-``conjugate/sqrt/exp/...`` methods defined below.
+Objects of this class live inside numpy object arrays and are driven by the *real* quimb code;
+numpy's object loops reach them through the Python operators and the
+``conjugate/sqrt/exp/log10/...`` methods below.
 """
 from __future__ import annotations
 
@@ -36,15 +39,16 @@ class SymTab:
 
     def reset(self):
         self.names = ["I"]
-        self.kind = ["I"]          # I, real, cplx, cplxbar, unit, unitbar, pos, posinv, alg, def
-        self.partner = [0]
-        self.powrule = {0: (2, -1)}  # id -> (n, const) : v**n -> const
-        self.invpair = {}            # id -> partner id with v*partner -> 1
-        self.ruleset = {0}
+        self.kind = ["I"]
+        self.partner = [0]           # conjugation partner (cplx <-> cplxbar); self otherwise
+        self.powrule = {0: (2, -1)}  # id -> (n, const): v**n -> const
+        self.invertible = set()      # pos / unit symbols: any rational exponent allowed
+        self.units = set()           # unit symbols (conj = inverse)
         self.positive = set()        # ids known > 0 (real)
         self.nonneg = set()
         self.byname = {"I": 0}
-        self.origin = {}             # id -> free text (which stub / leaf created it)
+        self.origin = {}
+        self.special = {0}           # ids with rewrite rules
 
     def new(self, name, kind, origin=None):
         if name in self.byname:
@@ -63,41 +67,53 @@ class SymTab:
 
 
 TAB = SymTab()
-HYP = []          # list of (Poly == 0) hypotheses with a label: (label, poly)
-INEQ = []         # list of (label, poly) meaning poly >= 0 / > 0 facts : (label, poly, strict)
-ASSUMED = []      # free-text genericity assumptions taken on this run (reported in evidence)
+HYP = []          # (label, Poly) : Poly == 0 hypotheses (stub contracts, defining relations)
+ASSUMED = []      # free-text assumptions taken on this run (reported in evidence)
 STATS = {"inexact_float_lifts": 0, "generic_branches": 0}
+_ALG = {}
+_DEF_CACHE = {}
+_GEN_CACHE = {}   # exp / exp10 generators keyed by the monomial of the exponent
+_LOG_CACHE = {}
+_LOG_INV = {}     # exponent symbol L (sid) -> the quantity p with L = log10(p)
 
 
 def reset():
     TAB.reset()
     HYP.clear()
-    INEQ.clear()
     ASSUMED.clear()
     STATS["inexact_float_lifts"] = 0
     STATS["generic_branches"] = 0
     _ALG.clear()
+    _DEF_CACHE.clear()
+    _GEN_CACHE.clear()
+    _LOG_CACHE.clear()
+    _LOG_INV.clear()
 
 
-def _mono(i):
-    return Poly({(i,): 1})
+def _mono(i, e=1):
+    return Poly({((i, e),): 1})
 
 
 def real(name, origin=None):
     return _mono(TAB.new(name, "real", origin))
 
 
-def positive(name, origin=None):
-    i = TAB.new(name, "real", origin)
-    TAB.positive.add(i)
-    TAB.nonneg.add(i)
-    return _mono(i)
-
-
 def nonneg(name, origin=None):
     i = TAB.new(name, "real", origin)
     TAB.nonneg.add(i)
     return _mono(i)
+
+
+def positive(name, origin=None):
+    """strictly positive real; invertible (negative / rational powers stay monomials)"""
+    i = TAB.new(name, "pos", origin)
+    TAB.positive.add(i)
+    TAB.nonneg.add(i)
+    TAB.invertible.add(i)
+    return _mono(i)
+
+
+posunit = positive
 
 
 def cplx(name, origin=None):
@@ -109,38 +125,20 @@ def cplx(name, origin=None):
 
 
 def unit(name, origin=None):
-    """A complex number of modulus one: u * conj(u) = 1."""
+    """complex number of modulus one: conj(u) = u**-1"""
     i = TAB.new(name, "unit", origin)
-    j = TAB.new(name + "^*", "unitbar", origin)
-    TAB.partner[i] = j
-    TAB.partner[j] = i
-    TAB.invpair[i] = j
-    TAB.invpair[j] = i
-    TAB.ruleset.update((i, j))
+    TAB.invertible.add(i)
+    TAB.units.add(i)
+    TAB.special.add(i)
     return _mono(i)
-
-
-def posunit(name, origin=None):
-    """A strictly positive real f together with its inverse: f * finv = 1."""
-    i = TAB.new(name, "pos", origin)
-    j = TAB.new(name + "^-1", "posinv", origin)
-    TAB.invpair[i] = j
-    TAB.invpair[j] = i
-    TAB.ruleset.update((i, j))
-    TAB.positive.update((i, j))
-    TAB.nonneg.update((i, j))
-    return _mono(i)
-
-
-_ALG = {}
 
 
 def alg_sqrt(n):
-    """The algebraic number sqrt(n) for n in {2, 3, 5, ...}: symbol S with S*S -> n, S > 0."""
+    """sqrt(n): symbol S with S*S -> n, S > 0"""
     if n not in _ALG:
         i = TAB.new(f"sqrt{n}", "alg")
         TAB.powrule[i] = (2, n)
-        TAB.ruleset.add(i)
+        TAB.special.add(i)
         TAB.positive.add(i)
         TAB.nonneg.add(i)
         _ALG[n] = i
@@ -153,7 +151,6 @@ _SQRTS = (2, 3, 5, 6)
 
 
 def _as_small_rational(x, maxden=96):
-    # x float; return Fraction if within 4 ulp of p/q with q <= maxden
     for q in range(1, maxden + 1):
         p = round(x * q)
         if p != 0 or x == 0.0:
@@ -163,21 +160,32 @@ def _as_small_rational(x, maxden=96):
     return None
 
 
+_LIFT_CACHE = {}
+
+
 def lift_float(x):
     x = float(x)
+    r = _LIFT_CACHE.get(x)
+    if r is not None:
+        kind, a = r
+        return Poly.const(a) if kind == 0 else alg_sqrt(kind) * a
     if x != x or x in (math.inf, -math.inf):
         raise Unsupported(f"non-finite float {x!r} reached a symbolic scalar")
     if x == int(x) and abs(x) < 2**53:
+        _LIFT_CACHE[x] = (0, int(x))
         return Poly.const(int(x))
     f = Fraction(x)
     if f.denominator <= 2**20:
+        _LIFT_CACHE[x] = (0, f)
         return Poly.const(f)
     r = _as_small_rational(x)
     if r is not None:
+        _LIFT_CACHE[x] = (0, r)
         return Poly.const(r)
     for n in _SQRTS:
         r = _as_small_rational(x / math.sqrt(n))
         if r is not None:
+            _LIFT_CACHE[x] = (n, r)
             return alg_sqrt(n) * r
     STATS["inexact_float_lifts"] += 1
     return Poly.const(f)
@@ -206,55 +214,69 @@ def lift(x):
     return NotImplemented
 
 
-# ------------------------------------------------------------------------------ reduction
+# ------------------------------------------------------------------------------ monomials
 
-def _reduce(m):
-    """Apply the rewrite rules to monomial m; return (coef, monomial)."""
-    rs = TAB.ruleset
-    hit = False
-    for v in m:
-        if v in rs:
-            hit = True
-            break
-    if not hit:
-        return 1, m
-    cnt = {}
-    for v in m:
-        cnt[v] = cnt.get(v, 0) + 1
-    coef = 1
-    changed = False
-    for v in list(cnt):
-        c = cnt.get(v, 0)
-        if not c:
-            continue
-        pr = TAB.powrule.get(v)
-        if pr is not None and c >= pr[0]:
-            n, k = pr
-            q, r = divmod(c, n)
-            coef = coef * (k ** q)
-            cnt[v] = r
-            changed = True
-            continue
-        p = TAB.invpair.get(v)
-        if p is not None and cnt.get(p, 0):
-            k = min(c, cnt[p])
-            cnt[v] -= k
-            cnt[p] -= k
-            changed = True
-    if not changed:
-        return 1, m
+def _mmul(a, b):
+    """product of two monomials -> (coef, monomial)"""
+    if not a:
+        return 1, b
+    if not b:
+        return 1, a
     out = []
-    for v in sorted(cnt):
-        out.extend([v] * cnt[v])
+    i = j = 0
+    la, lb = len(a), len(b)
+    coef = 1
+    sp = TAB.special
+    while i < la and j < lb:
+        sa, ea = a[i]
+        sb, eb = b[j]
+        if sa < sb:
+            out.append(a[i])
+            i += 1
+        elif sb < sa:
+            out.append(b[j])
+            j += 1
+        else:
+            e = ea + eb
+            i += 1
+            j += 1
+            if sa in sp:
+                pr = TAB.powrule.get(sa)
+                if pr is not None:
+                    n, k = pr
+                    if e >= n:
+                        q, e = divmod(e, n)
+                        coef = coef * (k ** q)
+            if e:
+                out.append((sa, e))
+    if i < la:
+        out.extend(a[i:])
+    elif j < lb:
+        out.extend(b[j:])
     return coef, tuple(out)
 
 
-def _merge(a, b):
-    if not a:
-        return b
-    if not b:
-        return a
-    return tuple(sorted(a + b))
+def _mpow(m, k):
+    """monomial ** rational k -> (coef, monomial)"""
+    out = []
+    coef = 1
+    for s, e in m:
+        e2 = e * k
+        if isinstance(e2, Fraction) and e2.denominator == 1:
+            e2 = e2.numerator
+        pr = TAB.powrule.get(s)
+        if pr is not None and isinstance(e2, int) and e2 >= pr[0]:
+            q, e2 = divmod(e2, pr[0])
+            coef = coef * pr[1] ** q
+        if e2:
+            out.append((s, e2))
+    return coef, tuple(out)
+
+
+def _cnorm(c):
+    if isinstance(c, Fraction) and c.denominator == 1:
+        return c.numerator
+    return c
 
 
 # ------------------------------------------------------------------------------ Poly
@@ -265,11 +287,9 @@ class Poly:
     def __init__(self, t=None):
         self.t = t if t is not None else {}
 
-    # -- constructors
     @staticmethod
     def const(c):
-        if isinstance(c, Fraction) and c.denominator == 1:
-            c = c.numerator
+        c = _cnorm(c)
         return Poly({(): c} if c else {})
 
     # -- predicates
@@ -280,12 +300,12 @@ class Poly:
         return not self.t or (len(self.t) == 1 and () in self.t)
 
     def constval(self):
-        """Return the complex/rational constant value or None if not constant."""
+        """complex/rational constant value, or None if not constant"""
         re, im = 0, 0
         for m, c in self.t.items():
             if m == ():
                 re = c
-            elif m == (0,):
+            elif m == ((0, 1),):
                 im = c
             else:
                 return None
@@ -296,22 +316,25 @@ class Poly:
     def symbols(self):
         s = set()
         for m in self.t:
-            s.update(m)
+            for v, _ in m:
+                s.add(v)
         return s
 
     def degree(self):
-        return max((len(m) for m in self.t), default=0)
+        return max((sum(abs(e) for _, e in m) for m in self.t), default=0)
 
     # -- arithmetic
     def __add__(self, o):
         o = lift(o)
         if o is NotImplemented:
             return NotImplemented
-        if not o.t:
+        ot = o.t
+        if not ot:
             return self
-        if not self.t:
+        st = self.t
+        if not st:
             return o
-        a, b = (self.t, o.t) if len(self.t) >= len(o.t) else (o.t, self.t)
+        a, b = (st, ot) if len(st) >= len(ot) else (ot, st)
         r = dict(a)
         for m, c in b.items():
             v = r.get(m)
@@ -337,10 +360,11 @@ class Poly:
         o = lift(o)
         if o is NotImplemented:
             return NotImplemented
-        if not o.t:
+        ot = o.t
+        if not ot:
             return self
         r = dict(self.t)
-        for m, c in o.t.items():
+        for m, c in ot.items():
             v = r.get(m)
             if v is None:
                 r[m] = -c
@@ -362,33 +386,24 @@ class Poly:
         o = lift(o)
         if o is NotImplemented:
             return NotImplemented
-        if not self.t or not o.t:
-            return Poly()
         a, b = self.t, o.t
+        if not a or not b:
+            return Poly()
         if len(b) == 1:
             a, b = b, a
-        r = {}
-        rs = TAB.ruleset
         if len(a) == 1:
             (m1, c1), = a.items()
             if not m1:
                 if c1 == 1:
                     return Poly(dict(b))
                 return Poly({m: c * c1 for m, c in b.items()})
+        r = {}
         for m1, c1 in a.items():
             for m2, c2 in b.items():
-                if not m1:
-                    m = m2
-                elif not m2:
-                    m = m1
-                else:
-                    m = tuple(sorted(m1 + m2))
+                k, m = _mmul(m1, m2)
                 c = c1 * c2
-                # rules only matter if some rule symbol is present in *both* or with power
-                if rs and m1 and m2:
-                    k, m = _reduce(m)
-                    if k != 1:
-                        c = c * k
+                if k != 1:
+                    c = c * k
                 v = r.get(m)
                 if v is None:
                     r[m] = c
@@ -402,67 +417,137 @@ class Poly:
 
     __rmul__ = __mul__
 
-    def __pow__(self, n):
+    def _as_exponent(self, n):
         if isinstance(n, Poly):
             cv = n.constval()
-            if cv is None:
+            if cv is None or isinstance(cv, complex):
                 raise Unsupported("symbolic exponent")
             n = cv
-        if isinstance(n, (float, np.floating)) and float(n) == int(n):
-            n = int(n)
-        if isinstance(n, Fraction) and n.denominator == 1:
-            n = int(n)
-        if isinstance(n, (int, np.integer)):
-            n = int(n)
+        if isinstance(n, (bool, np.bool_, int, np.integer)):
+            return int(n)
+        if isinstance(n, Fraction):
+            return _cnorm(n)
+        if isinstance(n, (float, np.floating)):
+            if float(n) == int(n):
+                return int(n)
+            f = Fraction(float(n)).limit_denominator(64)
+            if abs(float(f) - float(n)) > 1e-12:
+                raise Unsupported(f"power {n!r} of a symbolic scalar")
+            return f
+        raise Unsupported(f"power {n!r} of a symbolic scalar")
+
+    def __pow__(self, n):
+        n = self._as_exponent(n)
+        if isinstance(n, int):
             if n < 0:
                 return (self ** (-n)).inverse()
-            r = Poly.const(1)
+            if n == 0:
+                return Poly.const(1)
+            if len(self.t) == 1:
+                (m, c), = self.t.items()
+                k, mm = _mpow(m, n)
+                return Poly({mm: c ** n * k})
+            r = None
             b = self
             while n:
                 if n & 1:
-                    r = r * b
+                    r = b if r is None else r * b
                 n >>= 1
                 if n:
                     b = b * b
             return r
-        if isinstance(n, (float, Fraction)) and Fraction(n) == Fraction(1, 2):
-            return self.sqrt()
-        if isinstance(n, (float, Fraction)) and Fraction(n) == Fraction(-1, 2):
-            return self.sqrt().inverse()
+        # rational power
+        r = self._exact_root(n.denominator)
+        if r is not None:
+            return r ** n.numerator
+        if n == Fraction(1, 2):
+            return _defined_sqrt(self)
+        if n == Fraction(-1, 2):
+            return _defined_sqrt(self).inverse()
         raise Unsupported(f"power {n!r} of a symbolic scalar")
 
     def __rpow__(self, base):
-        # base ** self : only 10**e style with the exponent machinery (see exp10)
         cv = self.constval()
         if cv is not None and not isinstance(cv, complex):
-            if Fraction(cv).denominator == 1:
-                return lift(base) ** int(cv)
-            if Fraction(cv) == Fraction(1, 2):
-                return lift(base).sqrt()
+            f = Fraction(cv)
+            if f.denominator == 1:
+                return lift(base) ** int(f)
+            return lift(base) ** f
         if base == 10 or base == 10.0:
             return exp10(self)
         raise Unsupported(f"{base!r} ** symbolic")
+
+    def _exact_root(self, k):
+        """k-th root when self is c * (monomial of non-negative symbols) with exact roots"""
+        if not self.t:
+            return self
+        if len(self.t) != 1:
+            return None
+        (m, c), = self.t.items()
+        c = Fraction(c)
+        if c <= 0:
+            return None
+
+        def iroot(x):
+            r = round(x ** (1.0 / k))
+            for cand in (r - 1, r, r + 1):
+                if cand >= 0 and cand ** k == x:
+                    return cand
+            return None
+
+        rn, rd = iroot(c.numerator), iroot(c.denominator)
+        croot = None
+        if rn is not None and rd is not None:
+            croot = Poly.const(Fraction(rn, rd))
+        elif k == 2:
+            for s in _SQRTS:
+                g = c / s
+                a, b = iroot(g.numerator), iroot(g.denominator)
+                if a is not None and b is not None:
+                    croot = alg_sqrt(s) * Fraction(a, b)
+                    break
+        if croot is None:
+            return None
+        out = []
+        for s, e in m:
+            if s not in TAB.nonneg:
+                return None
+            if s in TAB.invertible:
+                out.append((s, _cnorm(Fraction(e) / k)))
+            else:
+                if s in TAB.powrule or not isinstance(e, int) or e % k:
+                    return None
+                out.append((s, e // k))
+        return croot * Poly({tuple(out): 1})
 
     def inverse(self):
         if not self.t:
             raise ZeroDivisionError("division by symbolic zero")
         if len(self.t) == 1:
             (m, c), = self.t.items()
-            # monomial: invertible if every symbol has an inverse partner / is I / alg
-            out = Poly.const(Fraction(1) / c if not isinstance(c, int) or c not in (1, -1) else c)
+            cinv = Fraction(1) / c
+            out = []
+            k = 1
             ok = True
-            for v in m:
-                if v in TAB.invpair:
-                    out = out * _mono(TAB.invpair[v])
-                elif v in TAB.powrule:
-                    n, k = TAB.powrule[v]
-                    # v**-1 = v**(n-1) / k
-                    out = out * (_mono(v) ** (n - 1)) * Fraction(1, k)
+            for s, e in m:
+                if s not in TAB.invertible and s in TAB.nonneg and s not in TAB.powrule:
+                    # dividing by a non-negative quantity (norm, singular value, sqrt(...)):
+                    # assumed strictly positive from here on, which makes it invertible
+                    TAB.invertible.add(s)
+                    TAB.positive.add(s)
+                    if len(ASSUMED) < 60:
+                        ASSUMED.append(f"division by {TAB.names[s]} ({TAB.origin.get(s, 'non-negative symbol')}): assumed > 0"[:200])
+                if s in TAB.invertible:
+                    out.append((s, -e))
+                elif s in TAB.powrule:
+                    n, kk = TAB.powrule[s]   # v**-e = v**(n-e) / k   (0 < e < n)
+                    out.append((s, n - e))
+                    k = k * Fraction(1, kk)
                 else:
                     ok = False
                     break
             if ok:
-                return out
+                return Poly({tuple(out): _cnorm(cinv * k)})
         cv = self.constval()
         if cv is not None:  # complex constant
             cj = self.conjugate()
@@ -493,10 +578,12 @@ class Poly:
 
     # -- complex structure
     def conjugate(self):
+        part = TAB.partner
+        units = TAB.units
         need = False
         for m in self.t:
-            for v in m:
-                if TAB.partner[v] != v or v == 0:
+            for v, _ in m:
+                if v == 0 or part[v] != v or v in units:
                     need = True
                     break
             if need:
@@ -504,19 +591,24 @@ class Poly:
         if not need:
             return self
         r = {}
-        part = TAB.partner
         for m, c in self.t.items():
-            sign = 1
             mm = []
-            for v in m:
+            for v, e in m:
                 if v == 0:
-                    sign = -sign
-                    mm.append(0)
+                    c = -c
+                    mm.append((0, e))
+                elif v in units:
+                    mm.append((v, -e))
                 else:
-                    mm.append(part[v])
-            mm = tuple(sorted(mm))
-            r[mm] = r.get(mm, 0) + sign * c
-        return Poly({m: c for m, c in r.items() if c})
+                    mm.append((part[v], e))
+            mm.sort()
+            mm = tuple(mm)
+            c2 = r.get(mm, 0) + c
+            if c2:
+                r[mm] = c2
+            else:
+                r.pop(mm, None)
+        return Poly(r)
 
     conj = conjugate
 
@@ -529,31 +621,14 @@ class Poly:
         return (self - self.conjugate()) * (-I) * Fraction(1, 2)
 
     def is_real(self):
-        return (self - self.conjugate()).iszero()
+        c = self.conjugate()
+        return c is self or c.t == self.t
 
     # -- transcendental hooks (called by numpy ufuncs on object arrays)
     def sqrt(self):
-        cv = self.constval()
-        if cv is not None and not isinstance(cv, complex):
-            f = Fraction(cv)
-            if f >= 0:
-                n, d = f.numerator, f.denominator
-                rn, rd = math.isqrt(n), math.isqrt(d)
-                if rn * rn == n and rd * rd == d:
-                    return Poly.const(Fraction(rn, rd))
-                for k in _SQRTS:
-                    g = f / k
-                    rn, rd = math.isqrt(g.numerator), math.isqrt(g.denominator)
-                    if rn * rn == g.numerator and rd * rd == g.denominator:
-                        return alg_sqrt(k) * Fraction(rn, rd)
-        # perfect square monomial of positive symbols
-        if len(self.t) == 1:
-            (m, c), = self.t.items()
-            if isinstance(c, (int, Fraction)) and c > 0 and len(m) % 2 == 0 and all(
-                m[i] == m[i + 1] for i in range(0, len(m), 2)
-            ) and all(v in TAB.nonneg for v in m):
-                cr = Poly.const(c).sqrt()
-                return cr * Poly({tuple(m[::2]): 1})
+        r = self._exact_root(2)
+        if r is not None:
+            return r
         return _defined_sqrt(self)
 
     def exp(self):
@@ -578,8 +653,7 @@ class Poly:
         o = lift(o)
         if o is NotImplemented:
             return NotImplemented
-        d = self - o
-        return _decide_cmp(d, op)
+        return _decide_cmp(self - o, op)
 
     def __eq__(self, o):
         return self._cmp(o, "==")
@@ -614,10 +688,14 @@ class Poly:
             if isinstance(cv, complex):
                 return (self * self.conjugate()).sqrt()
             return Poly.const(abs(cv))
-        if _sign_known(self) == 1:
+        sk = _sign_known(self)
+        if sk == 1:
             return self
-        if _sign_known(self) == -1:
+        if sk == -1:
             return -self
+        return LazyAbs(self)
+
+    def _abs_resolved(self):
         if not self.is_real():
             return (self * self.conjugate()).sqrt()
         if _decide_cmp(self, ">="):
@@ -650,13 +728,17 @@ class Poly:
             return "0"
         out = []
         for m, c in sorted(self.t.items(), key=lambda kv: (len(kv[0]), kv[0]))[:12]:
-            names = "*".join(TAB.names[i] for i in m)
+            names = "*".join(TAB.names[i] + (f"^{e}" if e != 1 else "") for i, e in m)
             out.append(f"{c}" + ("*" + names if names else ""))
         if len(self.t) > 12:
             out.append(f"...({len(self.t)} terms)")
         return " + ".join(out)
 
-    # numpy object arrays need these to behave like numbers
+    # numpy hands back the bare element for 0-d object results; numpy float scalars carry the
+    # ndarray API, so the real code may call these on a "scalar array"
+    size = 1
+    T = property(lambda self: self)
+
     @property
     def dtype(self):
         return np.dtype(object)
@@ -672,18 +754,97 @@ class Poly:
     def item(self):
         return self
 
-    # evaluation at a numeric point: env maps symbol id -> complex/float/Fraction
+    def _arr0(self):
+        a = np.empty((), dtype=object)
+        a[()] = self
+        return a
+
+    def ravel(self, *a, **k):
+        return self._arr0().ravel()
+
+    flatten = ravel
+
+    def reshape(self, *shape, **k):
+        return self._arr0().reshape(*shape)
+
+    def transpose(self, *axes):
+        return self
+
+    def squeeze(self, *a, **k):
+        return self
+
+    def copy(self, *a, **k):
+        return self
+
+    def astype(self, dtype, *a, **k):
+        return self
+
+    def sum(self, *a, **k):
+        return self
+
+    def __array__(self, dtype=None, copy=None):
+        return self._arr0()
+
+    # evaluation at a numeric point: env maps symbol id -> complex/float
     def evaluate(self, env):
         tot = 0
         for m, c in self.t.items():
             v = c if not isinstance(c, Fraction) else (c.numerator / c.denominator)
-            for s in m:
-                v = v * env[s]
+            for s, e in m:
+                v = v * env[s] ** (e if isinstance(e, int) else float(e))
             tot = tot + v
         return tot
 
 
-I = Poly({(0,): 1})
+class LazyAbs(Poly):
+    """|p| kept unevaluated: squaring it needs no sign decision (|p|**2 = p * conj(p)) and a
+    max over such values is abstracted by an arbitrary positive factor (see stubs).  Any other
+    use resolves it: sign fork for real p (engine SX), sqrt(p*conj p) defined symbol otherwise."""
+    __slots__ = ("p", "_t")
+
+    def __init__(self, p):
+        self.p = p
+        self._t = None
+
+    @property
+    def t(self):
+        if self._t is None:
+            self._t = self.p._abs_resolved().t
+        return self._t
+
+    @t.setter
+    def t(self, v):
+        self._t = v
+
+    def __pow__(self, n):
+        if self._t is None and isinstance(n, (int, float, np.integer, np.floating)) and float(n) == int(n) \
+                and int(n) % 2 == 0 and int(n) > 0:
+            return (self.p * self.p.conjugate()) ** (int(n) // 2)
+        return Poly.__pow__(self, n)
+
+    def __mul__(self, o):
+        if o is self and self._t is None:
+            return self.p * self.p.conjugate()
+        return Poly.__mul__(self, o)
+
+    def conjugate(self):
+        return self
+
+    conj = conjugate
+
+    def __abs__(self):
+        return self
+
+    def __repr__(self):
+        return f"|{self.p!r}|" if self._t is None else Poly.__repr__(self)
+
+
+# autoray infers the backend of a bare scalar from its class' module: a Poly scalar must be
+# handled by numpy (whose object-dtype ufuncs call the methods above), like a numpy float is.
+Poly.__module__ = "numpy"
+LazyAbs.__module__ = "numpy"
+
+I = Poly({((0, 1),): 1})
 ZERO = Poly()
 ONE = Poly.const(1)
 
@@ -693,25 +854,30 @@ def _exact_monomial_quotient(a, b):
     if len(b.t) != 1:
         return None
     (mb, cb), = b.t.items()
-    if 0 in mb:
-        return None
+    for s, _ in mb:
+        if s == 0 or s in TAB.powrule:
+            return None
     r = {}
+    inv = TAB.invertible
     for m, c in a.t.items():
-        mm = list(m)
-        for v in mb:
-            try:
-                mm.remove(v)
-            except ValueError:
-                return None
-        r[tuple(mm)] = Fraction(c) / cb if (cb not in (1, -1)) else c * cb
-    return Poly({m: (c.numerator if isinstance(c, Fraction) and c.denominator == 1 else c)
-                 for m, c in r.items()})
+        d = dict(m)
+        for s, e in mb:
+            if s in inv:
+                ne = d.get(s, 0) - e
+            else:
+                have = d.get(s, 0)
+                if have < e:
+                    return None
+                ne = have - e
+            if ne:
+                d[s] = ne
+            else:
+                d.pop(s, None)
+        r[tuple(sorted(d.items()))] = _cnorm(Fraction(c) / cb) if cb not in (1, -1) else c * cb
+    return Poly(r)
 
 
 # ------------------------------------------------------------------------------ defined symbols
-
-_DEF_CACHE = {}
-
 
 def _key(p):
     return frozenset(p.t.items())
@@ -721,17 +887,19 @@ def _defined_inverse(p):
     k = ("inv", _key(p))
     if k in _DEF_CACHE:
         return _DEF_CACHE[k]
-    i = TAB.new(f"inv{len(_DEF_CACHE)}", "def", origin=f"1/({p!r})")
-    w = _mono(i)
-    if p.is_real():
-        pass
+    isreal = p.is_real()
+    if isreal:
+        i = TAB.new(f"inv{len(_DEF_CACHE)}", "def", origin=f"1/({p!r})")
     else:
-        j = TAB.new(TAB.names[i] + "^*", "defbar")
+        i = TAB.new(f"inv{len(_DEF_CACHE)}", "cplx", origin=f"1/({p!r})")
+        j = TAB.new(TAB.names[i] + "^*", "cplxbar")
         TAB.partner[i] = j
         TAB.partner[j] = i
         HYP.append((f"def-inverse-conj:{TAB.names[i]}", _mono(j) * p.conjugate() - 1))
+    w = _mono(i)
     HYP.append((f"def-inverse:{TAB.names[i]}", w * p - 1))
-    ASSUMED.append(f"division by a symbolic quantity assumed non-zero: {p!r}")
+    if len(ASSUMED) < 60:
+        ASSUMED.append(f"division by a symbolic quantity assumed non-zero: {p!r}"[:200])
     if _sign_known(p) == 1:
         TAB.positive.add(i)
         TAB.nonneg.add(i)
@@ -755,70 +923,39 @@ def _defined_sqrt(p):
     return r
 
 
-_EXP_CACHE = {}
-
-
-def _split_rational_const(p):
-    """p = const + rest."""
-    c = p.t.get((), 0)
-    ci = p.t.get((0,), 0)
-    rest = Poly({m: v for m, v in p.t.items() if m not in ((), (0,))})
-    return c, ci, rest
+def _gen(kind, base):
+    """generator symbol for exp(base) / exp(i*base) / 10**base, base a monomial of symbols"""
+    k = (kind, base)
+    g = _GEN_CACHE.get(k)
+    if g is None:
+        nm = "*".join(TAB.names[v] + (f"^{e}" if e != 1 else "") for v, e in base)
+        if kind == "expi":
+            g = unit(f"expi[{nm}]")
+        elif kind == "exp":
+            g = positive(f"exp[{nm}]")
+        else:
+            g = positive(f"10^[{nm}]")
+        _GEN_CACHE[k] = g
+    return g
 
 
 def _exp(p):
-    """exp of a linear form.  exp(I*a) for real a -> product of unit symbols; exp(a) for real a
-    -> product of positive symbols.  Homomorphism is structural: each *term* of the linear form
-    gets its own generator raised to an integer power (terms are split over a common
-    denominator recorded per monomial)."""
+    """exp of a linear form: exp(sum_m c_m m) = prod_m gen(m)**c_m  (rational exponents are
+    exponents of the invertible generator, so the group law is structural)"""
     if not p.t:
         return Poly.const(1)
     out = Poly.const(1)
     for m, c in p.t.items():
-        imag = 0 in m
-        base = tuple(v for v in m if v != 0)
+        imag = bool(m) and m[0][0] == 0
+        base = m[1:] if imag else m
         if not base:
-            if imag:
-                out = out * _exp_const_imag(Fraction(c))
-                continue
-            raise Unsupported(f"exp of a non-zero real constant {c}")
-        if m.count(0) > 1:
-            raise Unsupported("exp: unreduced I")
-        out = out * _exp_gen(base, imag, Fraction(c))
+            raise Unsupported(f"exp of a non-zero constant {c}{'*I' if imag else ''}")
+        out = out * (_gen("expi" if imag else "exp", base) ** _cnorm(Fraction(c)))
     return out
 
 
-_EXP_DEN = 8  # generators represent exp(x/8) so that x/2, x/4 are integer powers
-
-
-def _exp_gen(base, imag, c):
-    k = ("exp", base, imag)
-    if k not in _EXP_CACHE:
-        name = ("expi[" if imag else "exp[") + "*".join(TAB.names[v] for v in base) + f"/{_EXP_DEN}]"
-        _EXP_CACHE[k] = unit(name) if imag else posunit(name)
-    g = _EXP_CACHE[k]
-    n = c * _EXP_DEN
-    if n.denominator != 1:
-        raise Unsupported(f"exp: coefficient {c} is not a multiple of 1/{_EXP_DEN}")
-    n = int(n)
-    if n >= 0:
-        return g ** n
-    ginv = _mono(TAB.invpair[next(iter(g.t))[0]])
-    return ginv ** (-n)
-
-
-def _exp_const_imag(c):
-    # exp(I*c) for rational c: only c == 0 is algebraic over Q (pi multiples come as floats)
-    if c == 0:
-        return Poly.const(1)
-    raise Unsupported(f"exp(I*{c}) with a rational constant")
-
-
-_LOG_CACHE = {}
-
-
 def exp10(p):
-    """10**p for a real linear form p in *exponent symbols* (and rational constants)."""
+    """10**p for a real linear form p (rational constants allowed when integral)"""
     out = Poly.const(1)
     for m, c in p.t.items():
         c = Fraction(c)
@@ -827,29 +964,25 @@ def exp10(p):
                 raise Unsupported(f"10**{c}")
             out = out * (Poly.const(10) ** int(c) if c >= 0 else Poly.const(Fraction(1, 10 ** int(-c))))
             continue
-        k = ("exp10", m)
-        if k not in _EXP_CACHE:
-            _EXP_CACHE[k] = posunit("10^[" + "*".join(TAB.names[v] for v in m) + f"/{_EXP_DEN}]")
-        g = _EXP_CACHE[k]
-        n = c * _EXP_DEN
-        if n.denominator != 1:
-            raise Unsupported(f"10**: coefficient {c} not a multiple of 1/{_EXP_DEN}")
-        n = int(n)
-        out = out * (g ** n if n >= 0 else _mono(TAB.invpair[next(iter(g.t))[0]]) ** (-n))
+        if m[0][0] == 0:
+            raise Unsupported("10**(imaginary)")
+        if len(m) == 1 and m[0][1] == 1 and m[0][0] in _LOG_INV:
+            # 10**log10(p) is p itself
+            out = out * (_LOG_INV[m[0][0]] ** _cnorm(c))
+            continue
+        out = out * (_gen("exp10", m) ** _cnorm(c))
     return out
 
 
 def _log10(p):
-    """log10 of a positive quantity.  log10 of a product of 10^[e] generators is the linear
-    form back; of anything else it is a fresh *exponent symbol* L with 10**L = p."""
+    """log10 of a positive quantity.  A monomial in 10^[.] generators gives the linear form
+    back; anything else becomes a fresh *exponent symbol* L with 10**L = p."""
     cv = p.constval()
     if cv is not None and not isinstance(cv, complex):
         f = Fraction(cv)
-        if f == 1:
-            return Poly.const(0)
         k = 0
         g = f
-        while g.denominator == 1 and g.numerator % 10 == 0 and g != 0:
+        while g != 0 and g.denominator == 1 and g.numerator % 10 == 0:
             g = g / 10
             k += 1
         while g != 0 and g.numerator == 1 and g.denominator % 10 == 0:
@@ -859,49 +992,34 @@ def _log10(p):
             return Poly.const(k)
     if len(p.t) == 1:
         (m, c), = p.t.items()
-        out = _log10(Poly.const(c)) if c != 1 else Poly.const(0)
-        ok = True
-        for v in m:
-            hit = None
-            for key, g in _EXP_CACHE.items():
-                if key[0] == "exp10":
-                    gid = next(iter(g.t))[0]
-                    if v == gid:
-                        hit = (key[1], Fraction(1, _EXP_DEN))
-                    elif v == TAB.invpair[gid]:
-                        hit = (key[1], Fraction(-1, _EXP_DEN))
-            if hit is None:
-                ok = False
-                break
-            out = out + Poly({hit[0]: hit[1]})
-        if ok:
+        gens = {next(iter(g.t))[0][0]: key[1] for key, g in _GEN_CACHE.items() if key[0] == "exp10"}
+        if m and all(s in gens for s, _ in m):
+            out = _log10(Poly.const(c)) if c != 1 else Poly.const(0)
+            for s, e in m:
+                out = out + Poly({gens[s]: e})
             return out
     k = ("log10", _key(p))
     if k not in _LOG_CACHE:
-        L = real(f"log10_{len(_LOG_CACHE)}", origin=f"log10({p!r})")
+        L = real(f"log10_{len(_LOG_CACHE)}", origin=f"log10({p!r})"[:120])
         _LOG_CACHE[k] = L
-        # tie 10**L to p : the generator for L's monomial, to the power _EXP_DEN, equals p
-        g = exp10(L)  # = gen**_EXP_DEN
-        HYP.append((f"def-log10:{L!r}", g - p))
+        _LOG_INV[next(iter(L.t))[0][0]] = p
     return _LOG_CACHE[k]
 
 
 # ------------------------------------------------------------------------------ comparisons
 
 def _sign_known(p):
-    """+1 / -1 if p is structurally a positive/negative quantity, 0 if structurally zero, else None."""
+    """+1 / -1 if p is structurally positive/negative, 0 if structurally zero, else None."""
     if not p.t:
         return 0
     signs = set()
+    pos = TAB.positive
     for m, c in p.t.items():
-        if 0 in m:
-            return None
         if isinstance(c, complex):
             return None
-        strict = all(v in TAB.positive for v in m)
-        if not strict:
-            # even powers of real symbols are non-negative but not strictly positive
-            return None
+        for v, e in m:
+            if v not in pos:
+                return None
         signs.add(1 if c > 0 else -1)
     if len(signs) == 1:
         return signs.pop()
@@ -909,6 +1027,7 @@ def _sign_known(p):
 
 
 CMP_HANDLER = [None]   # installed by qv.sx when an exploration context is active
+OPTIONS = {"fork_eq": False}
 
 
 def _decide_cmp(d, op):
@@ -924,13 +1043,15 @@ def _decide_cmp(d, op):
     if s is not None:
         return {"==": s == 0, "<": s < 0, "<=": s <= 0, ">": s > 0, ">=": s >= 0}[op]
     h = CMP_HANDLER[0]
-    if h is not None:
+    if h is not None and (op != "==" or OPTIONS["fork_eq"]):
         return h(d, op)
     if op == "==":
-        # generic position: a non-trivial polynomial is non-zero for generic inputs
+        # generic position: a non-trivial polynomial vanishes only on a measure-zero set; the
+        # `!= 0` branch is taken and the assumption is reported (harnesses that care about the
+        # zero branch set OPTIONS['fork_eq'] and let the explorer fork)
         STATS["generic_branches"] += 1
         if len(ASSUMED) < 50:
-            ASSUMED.append(f"generic position: {d!r} != 0")
+            ASSUMED.append(f"generic position: {d!r} != 0"[:200])
         return False
     raise Unsupported(f"ordering comparison of symbolic scalar: {d!r} {op} 0")
 
@@ -949,7 +1070,7 @@ def symarray(name, shape, kind="real"):
 
 
 def to_obj(x):
-    """Convert a numeric array (or nested list) to an object array of exact Poly constants."""
+    """numeric array -> object array of exact Poly constants"""
     x = np.asarray(x)
     if x.dtype == object:
         return x
